@@ -31,7 +31,8 @@ def mem_alphabet():
         A.append((op, 0, 3, 5 + k % 2, off))
         k += 1
     A += [("lw", 5, 3, 0, 0), ("sw", 0, 3, 6, 0), ("lw", 6, 3, 0, 64), ("sw", 0, 3, 5, 128), ("sb", 0, 3, 6, 65), ("lbu", 7, 3, 0, 129),
-          ("addi", 5, 5, 0, 1), ("addi", 17, 0, 0, 4), ("add", 10, 3, 0, 0), ("ecall", 0, 0, 0, 0)]
+          ("addi", 5, 5, 0, 1), ("addi", 17, 0, 0, 4), ("add", 10, 3, 0, 0), ("ecall", 0, 0, 0, 0),
+          ("beq", 0, 0, 0, 8), ("jal", 28, 0, 0, 8)]  # wrong-path loads/stores behind a taken branch / jump
     return A
 
 
@@ -108,13 +109,13 @@ def configs(ctx):
             pre = (k + seed) % 2 == 1
             variant = ("base", "top", "neg", "big")[(k + seed) % 4] if k % 3 == 0 else "base"
             out.append((Cfg(*g, kind, policy, 0, "full", pre, variant), 3 if g[1] == 0 or g[2] == 1 else 2))
-            out.append((Cfg(*g, kind, policy, 0, "word", not pre, "base"), 5 if len(Cfg(*g, kind, policy).words) <= 4 else (4 if g[0] == 0 else 3)))
+            out.append((Cfg(*g, kind, policy, 0, "word", not pre, "mixed" if k % 2 == 0 else "base"), 5 if len(Cfg(*g, kind, policy).words) <= 4 else (4 if g[0] == 0 else 3)))
     else:
         for k, (g, kind, policy) in enumerate(cachecfg.thorough_configs()):
             for pre in (False, True):
                 variant = ("base", "top", "neg", "big")[(k + seed + int(pre)) % 4]
                 out.append((Cfg(*g, kind, policy, 0, "full", pre, variant), 3 if (g[2] >= 4 or g == (1, 1, 2)) else 4))
-            out.append((Cfg(*g, kind, policy, 0, "word", k % 2 == 0, "base"), 6 if g[2] <= 2 else 5))
+            out.append((Cfg(*g, kind, policy, 0, "word", k % 2 == 0, "mixed" if k % 2 else "base"), 6 if g[2] <= 2 else 5))
         out.append((Cfg(12, 1, 1, "wb", "lru", 0, "word", False, "base"), 2))
         out.append((Cfg(12, 1, 2, "wt", "plru", 0, "word", True, "base"), 2))
     return out
